@@ -60,6 +60,7 @@ def build():
         ("bt.core.SecurityBase.allocate", 0): ca.ALLOC_LOOP,
         ("bt.core.StrategyBase.update", 0): st_.LOOP1,
         ("bt.core.StrategyBase.update", 1): st_.LOOP2,
+        ("bt.core.StrategyBase.update", 2): st_.LOOP3,
     }
     loops.update(flow.LOOPS)
     # state merging at if-joins keeps StrategyBase.update at tens of paths; for the non-linear sizing
